@@ -58,6 +58,14 @@ fn entries(pos_doc: &Option<MObj>, neg_doc: &Option<MObj>, side: &str) -> Vec<Ex
         mk("non-matching", Some(d.clone()), None);
     }
     mk("empty-mapping", Some(MObj::new()), None);
+    // a YAML merge key is a literal "<<" entry for matches(); validate() must see the same document
+    for (d, label) in [(pos_doc, "merge-key-over-matching"), (neg_doc, "merge-key-over-non-matching")] {
+        if let Some(d) = d {
+            let mut m = MObj::new();
+            m.set("<<", crate::mdoc::MVal::Obj(d.clone()));
+            mk(label, Some(m), None);
+        }
+    }
     mk("string", None, None);
     mk("int", None, Some(Y::Number(1.into())));
     mk("null", None, Some(Y::Null));
